@@ -155,8 +155,11 @@ def verify_function(program, registry, spec, opts=None, work=None, expand_to=Non
     res.ast_hash = fi.ast_hash() if fi is not None else None
     from .values import FUNCTION_DEADLINE
 
+    from . import forker as _forker
+
     if work is None:
         FUNCTION_DEADLINE[0] = time.time() + float(opts.get("function_budget_s", 900))
+        _forker.new_path_counter()
     work = [[]] if work is None else list(work)
     seen = 0
     while work:
@@ -172,6 +175,10 @@ def verify_function(program, registry, spec, opts=None, work=None, expand_to=Non
             break
         decisions = work.pop(0) if expand_to is not None else work.pop()
         seen += 1
+        if _forker.count_path() > int(opts.get("function_max_paths", 60000)):
+            res.out_of_reach = (f"more than {int(opts.get('function_max_paths', 60000))} paths through this function (engine budget; typically a loop that is "
+                                "unrolled because no invariant is attached to it and that forks at every iteration)")
+            break
         if seen > opts.get("max_paths", MAX_PATHS):
             res.out_of_reach = f"more than {MAX_PATHS} paths"
             break
